@@ -54,7 +54,7 @@ Section AddRxn.
     Core (prev ++ [SRxn ri]) r' acc' /\ Later r acc r' acc'.
   Proof.
     intros C F Hch HO Hattr i r' acc' HB.
-    destruct C as [Csok Cattr Cheld Cdom Creg CrR Ckeys Cdecl CkR].
+    destruct C as [Csok Cattr Cheld Cdom Creg CrR Ckeys Cdecl CkR Ccplx].
     pose proof (proj1 Csok) as I0. pose proof (ok_len _ _ (proj1 I0)) as Lc.
     pose proof (cls_of_lt ct cd cs cc cm cr CO) as Hlt.
     assert (Hneq : forall k, k <> KindR -> cr <> cls_of k).
@@ -93,6 +93,8 @@ Section AddRxn.
       + exists ri. split; [apply in_or_app; right; left; reflexivity | apply HB; exact L].
       + destruct (CkR j Hj) as [ri' [H1 H2]]. exists ri'. split; [apply in_or_app; left; exact H1|].
         eapply builtrxn_later; eauto.
+    - intros n0 names0 sst0 Hin. rewrite decl_cplx_snoc in Hin. cbn [cplx_entry] in Hin. rewrite app_nil_r in Hin.
+      destruct (Ccplx n0 names0 sst0 Hin) as [conc Hb]. exists conc. eapply builtcplx_later; eauto.
   Qed.
 
   (* the two signatures differ in both components *)
